@@ -3,18 +3,27 @@ from .. import rx
 from ..facts import AnalysisError
 from ..lineflow import LineShape, instruction_sites, line_paths, origin, subject_of, token_class
 from ..models import make_interp
-from ..normflow import SPEC, decision_table
+from ..normflow import SPEC, decision_table, decision_table_if_applicable
 from ..values import AbsList, ListV, Str
 
 HEX = "0123456789abcdefABCDEF"
 
 
-def instr_patterns(I):
-    """the distinct regexes whose groups feed Instruction fields, with the roles of the groups"""
-    paths = line_paths(I)
-    sites = instruction_sites(I, paths)
-    if not sites:
-        raise AnalysisError("no Instruction(...) construction reached from LineParser.parse")
+def instr_patterns(I, ctx=None):
+    """the distinct regexes whose groups feed Instruction fields, with the roles of the groups.
+    With `ctx`: a line parser this abstract (opaque-line) interpretation cannot follow leaves the step undecided - nothing is
+    returned, the rules built on it judge no instance (their floors then keep the check from passing), and the rules decided
+    exactly on token templates still run and report what they establish."""
+    try:
+        paths = line_paths(I)
+        sites = instruction_sites(I, paths)
+        if not sites:
+            raise AnalysisError("no Instruction(...) construction reached from LineParser.parse")
+    except AnalysisError as exc:
+        if ctx is None:
+            raise
+        ctx.defer(f"line flow (opaque line) undecided: {exc}")
+        return [], [], {}
     pats = {}
     for s in sites:
         for field, v in s.fields.items():
@@ -28,7 +37,7 @@ def instr_patterns(I):
 
 def table_check(ctx, rule, I):
     n = 0
-    for a, row, outs, raises in decision_table(I):
+    for a, row, outs, raises in decision_table_if_applicable(ctx, I):
         n += 1
         cls = "&".join(k for k, v in a.items() if v) or "none"
         from ..normflow import ALSO
